@@ -59,4 +59,15 @@ PROPS["C12"] = {
     "assumptions": ["a crash of the harness process while running the real server is reported as a violation with the sequence in progress as the replay"],
 }
 
+PROPS["C20"] = {
+    "level_text": "Theorems (Lean 4): the handler built by ChainUnaryInterceptor/ChainStreamInterceptor (index recursion transcribed) equals the nesting of the interceptors in registration order around the final handler, for EVERY chain length >= 1 (induction; no length bound); for logging interceptors the call log is enter 0..n-1, handler, exit n-1..0, every interceptor is entered exactly once, and what each stage rewrites on the way down/up is what the next stage and the caller observe. Stats: on every modelled code path (client unary, server unary, server stream with any handler program, client stream with any interleaving of caller and read-loop events) the per-RPC event list has Begin first, exactly one Begin and exactly one End, and End's error flag is the path's outcome. Tied to /repo by the chain recursion shape (extracted), runStream/newStream skeletons and a lock-step: real chains of 1-6 interceptors (log + rewritten values compared with the model), and recorded events of 1-3 stats handlers per side over 4 kinds x 6 outcomes decided by the Lean shape monitor.",
+    "level_note": "Trusted: Lean kernel; extractor; harness. Interceptors are modelled as functions that call next once (what the property's interceptors do). I4: an RPC refused before any event may emit no stats events. The stats generators are transcriptions of straight-line code tied by the recorded event lists, not derived mechanically.",
+    "technique": "Lean 4 proof (induction on the interceptor list; list lemmas for the stats shapes) + extracted recursion shape + lock-step of real chains and recorded stats events",
+    "props": ["Goat.Props.C20"],
+    "tie": ["Goat.Tie.C20"],
+    "rule": "chain cases: lengths 1-6 x 3 payloads (log and value compared with the model) plus error propagation and streaming chains; stats cases: one per (handler, RPC) event list over 1-3 handlers x 6 outcomes (ok, handler error, cancel, deadline, transport failure, failed open) x 4 kinds; non-trivial = every case",
+    "modelled_not_verified": COMMON_MNV,
+    "assumptions": ["I4"],
+}
+
 NOT_YET = {}
